@@ -26,6 +26,12 @@ func (b *StringBuilder) WriteByte(c byte) (err error)
 func (b *StringBuilder) WriteRune(r rune) (err error)
   assert [C01,C02,C09] b.mode == UnsafeEscaped before "return b.Buffer.WriteRune(r)"
 
+-- printed as an operand, a builder hands its contents to the printer, once, and that is all: the receiver is a
+-- copy that shares its bytes with the caller's builder, and a print call only reads its operands (C12, C13)
+func (b StringBuilder) SafeFormat(p i.SafePrinter, _ rune)
+  modifies gspn, gspa, alloc
+  ensures [C08,C12] gspn == old(gspn) + 1
+
 func (b *StringBuilder) Print(args ...interface{})
   requires [C08] b.mode == SafeRaw ==> clean(b.buf, len(b.buf))
   may-panic
